@@ -774,7 +774,7 @@ fn gen_store_case(rng: &mut Rng, thorough: bool) -> Case {
     let ents: Vec<String> = vec!["user".into(), rng.pick(&ENT_BASE).to_string()];
     let slots: Vec<String> = vec!["loc".into(), rng.pick(&SLOT_BASE).to_string()];
     let pool = [10i64, 20, 20, 30];
-    let n = rng.usize(3, if thorough { 24 } else { 12 });
+    let n = rng.usize(3, if thorough { 20 } else { 9 });
     let mut ops = vec![];
     let mut cards: Vec<CardSpec> = vec![];
     let mut frames = 0;
@@ -868,7 +868,7 @@ fn record(case: &Case, res: &Res, sum: &mut Summary, known: &[String]) {
 fn shrink(case: &Case, drv: &mut Option<Driver>, res: &Res) -> Case {
     let sig = res.oracle.first().map(|x| x.0.clone());
     let had_dis = !res.disagree.is_empty();
-    let mut budget = if case.store { 30 } else { 400 };
+    let mut budget = if case.store { 14 } else { 400 };
     let mut fails = |ops: &[Op]| {
         if budget == 0 { return false; }
         budget -= 1;
@@ -892,7 +892,7 @@ fn main() {
         "track cases: 0-14 (thorough 0-40) cards over 1-3 entities x 1-3 slots in random ASCII case (pools include ':' inside names, empty, CJK), \
          timestamps from a pool of 1-4 values (ties) plus i64 extremes, missing event/document dates, all four version relations (25% extra retractions), \
          queries at/around/beyond every card time, serialize->deserialize in between; raw tracks deserialised from JSON (mixed-case index keys, dangling/duplicate ids); \
-         oracle-only Unicode upper-case names; store cases: 3-12 (thorough 3-24) operations of put_memory_card / clear_memories / put_bytes / mesh node / mesh edge / mesh clear / \
+         oracle-only Unicode upper-case names; store cases: 3-9 (thorough 3-20) operations of put_memory_card / clear_memories / put_bytes / mesh node / mesh edge / mesh clear / \
          commit / close+reopen / crash+reopen on a real .mv2 file, ending with a durable point and a reopen; non-trivial = a queried slot holds >= 2 cards or cards survive a reopen; \
          distinct = blake3 of all implementation answers");
     sum.expect_branches(&["at-some", "at-none-with-cards", "at-beyond-latest", "at-some-with-later-cards", "at-skips-retraction", "query-slot-with-timestamp-tie",
@@ -914,7 +914,7 @@ fn main() {
         sum.finish(&args);
     }
     let mut rng = Rng::new(args.seed);
-    let (n_track, n_raw, n_uni, n_store) = if args.thorough { (6000, 1500, 600, 700) } else { (700, 200, 80, 40) };
+    let (n_track, n_raw, n_uni, n_store) = if args.thorough { (6000, 1500, 600, 500) } else { (600, 150, 60, 14) };
     let mut cases = corpus();
     for _ in 0..n_track { cases.push(gen_track_case(&mut rng, args.thorough)); }
     for _ in 0..n_raw { cases.push(gen_raw_case(&mut rng)); }
